@@ -63,8 +63,8 @@ class Deep:
                 plugin_resource = provider.resource()
                 if plugin_resource:
                     default_resource = default_resource.merge(plugin_resource)
-            except Exception:
-                deep.logging.exception("Failed to process plugin resource {}", provider.name)
+            except BaseException:
+                deep.logging.exception("Failed to process plugin resource %s", provider.name)
 
         self.config.resource = default_resource
         self.trigger_handler.start()
@@ -87,7 +87,7 @@ class Deep:
         for plugin in self.config.plugins:
             try:
                 plugin.shutdown()
-            except Exception:
+            except BaseException:
                 deep.logging.exception("Failed to shutdown plugin %s", plugin.name)
         deep.logging.info("Deep is shutdown.")
         self.started = False
